@@ -111,7 +111,7 @@ var c01Lits = []string{"0", "1", "2", "5", "1.5", `"a"`, `""`, `"1:2"`, `"-1:"`,
 // ---- case: a program (generated or assembled), optionally mutated at token level ---------
 
 type c01Mut struct {
-	Op  string `json:"op"` // del dup swap repl ins
+	Op  string `json:"op"` // del dup swap repl ins trunc
 	I   int    `json:"i"`
 	J   int    `json:"j"`
 	Lex string `json:"lex,omitempty"`
@@ -155,6 +155,36 @@ func c01ApplyMuts(src string, muts []c01Mut) string {
 			toks[i] = m.Lex
 		case "ins":
 			toks = append(toks[:i:i], append([]string{m.Lex}, toks[i:]...)...)
+		case "trunc":
+			// the arguments of one tag / variable end too early: keep the first (J mod k) of its k
+			// tokens, drop the rest up to the closing delimiter
+			var opens []int
+			for x, tk := range toks {
+				if strings.HasPrefix(tk, "{%") || strings.HasPrefix(tk, "{{") {
+					opens = append(opens, x)
+				}
+			}
+			if len(opens) == 0 {
+				break
+			}
+			o := opens[m.I%len(opens)]
+			c := o + 1
+			for c < len(toks) && !strings.HasSuffix(toks[c], "%}") && !strings.HasSuffix(toks[c], "}}") {
+				c++
+			}
+			if c >= len(toks) || c == o+1 {
+				break
+			}
+			// inner tokens o+1 .. c-1; keep the leading `keep` non-blank ones
+			keep := m.J % (c - o - 1)
+			cut, seen := o+1, 0
+			for cut < c && seen < keep {
+				if strings.TrimSpace(toks[cut]) != "" {
+					seen++
+				}
+				cut++
+			}
+			toks = append(toks[:cut:cut], append([]string{" "}, toks[c:]...)...)
 		}
 	}
 	return strings.Join(toks, "")
@@ -451,7 +481,7 @@ func c01Tpl(t *rapid.T, depth int) string {
 func genC01Muts(t *rapid.T, max int) []c01Mut {
 	var ms []c01Mut
 	for i := drawInt(t, 0, max, "nmut"); i > 0; i-- {
-		ms = append(ms, c01Mut{Op: pick(t, "mop", []string{"del", "dup", "swap", "repl", "repl", "ins"}), I: drawInt(t, 0, 400, "mi"), J: drawInt(t, 0, 400, "mj"), Lex: pick(t, "mlex", c01Vocab)})
+		ms = append(ms, c01Mut{Op: pick(t, "mop", []string{"del", "dup", "swap", "repl", "repl", "ins", "trunc", "trunc", "trunc"}), I: drawInt(t, 0, 400, "mi"), J: drawInt(t, 0, 400, "mj"), Lex: pick(t, "mlex", c01Vocab)})
 	}
 	return ms
 }
@@ -496,7 +526,7 @@ func genC01(t *rapid.T) *c01Case {
 var _ = register(&propSpec{
 	ID:    "C01.total",
 	Journ: true,
-	Rule:  "three layers against a set whose loader serves an acyclic library of helper files: grammar programs over every registered tag / filter (registry hook) and operator with error-prone constructs and the full value universe as context (nil, strings incl. invalid UTF-8 / NUL, every int/uint width incl. extremes, floats incl. NaN/Inf/-0/subnormal, bools, slices, arrays by value and pointer incl. empty, maps with string/int/uint8/any/bool/float/struct keys incl. nil map, structs with exported/unexported/embedded/pointer/chan/func fields, nil pointers, pointer to pointer, Stringers, time, *Value safe/unsafe/nil, funcs of every accepted and several unaccepted shapes incl. nil func, chan, complex, error, uintptr) - also installed as Globals; a crude grammar mixing path steps, subscripts, calls and filters freely; random lexeme soup; each optionally with 1-3 token-level mutations (delete, duplicate, swap, replace, insert from the lexeme vocabulary). Compiled through FromFile (2/3) or another entry point of the set (FromCache, FromString, FromBytes, RenderTemplateFile/String/Bytes, plus ExecuteBlocks). Oracle: compile returns exactly one of (template, *Error); Execute / Render* return output or an error; no panic; the worker survives (journal); no case exceeds the 30 s hang bound. Non-trivial: the source compiled (so execution ran); distinct by source+configuration.",
+	Rule:  "three layers against a set whose loader serves an acyclic library of helper files: grammar programs over every registered tag / filter (registry hook) and operator with error-prone constructs and the full value universe as context (nil, strings incl. invalid UTF-8 / NUL, every int/uint width incl. extremes, floats incl. NaN/Inf/-0/subnormal, bools, slices, arrays by value and pointer incl. empty, maps with string/int/uint8/any/bool/float/struct keys incl. nil map, structs with exported/unexported/embedded/pointer/chan/func fields, nil pointers, pointer to pointer, Stringers, time, *Value safe/unsafe/nil, funcs of every accepted and several unaccepted shapes incl. nil func, chan, complex, error, uintptr) - also installed as Globals; a crude grammar mixing path steps, subscripts, calls and filters freely; random lexeme soup; each optionally with 1-3 token-level mutations (delete, duplicate, swap, replace, insert from the lexeme vocabulary, truncate the arguments of one tag after its first k tokens). Compiled through FromFile (2/3) or another entry point of the set (FromCache, FromString, FromBytes, RenderTemplateFile/String/Bytes, plus ExecuteBlocks). Oracle: compile returns exactly one of (template, *Error); Execute / Render* return output or an error; no panic; the worker survives (journal); no case exceeds the 30 s hang bound. Non-trivial: the source compiled (so execution ran); distinct by source+configuration.",
 	Gen:   func(t *rapid.T) any { return genC01(t) },
 	New:   func() any { return &c01Case{} },
 	Check: checkC01,
